@@ -1273,6 +1273,7 @@ def sweep(ctx, pid, fields=None, f_only=None):
 
 def replay(case, pid=None):
     H.bind(case.get("p", REC.BN128))
+    _start_template()
     prog = [tuple(s) for s in case["prog"]]
     st, vs = analyse(prog, case.get("p", REC.BN128))
     if pid in KEEP:
